@@ -40,6 +40,7 @@ fn main() {
     if std::env::var_os("VERIF_PANIC_TRACE").is_none() {
         std::panic::set_hook(Box::new(|_| {}));
     }
+    #[cfg(feature = "sdk")]
     if args[0] == "--c19-child" {
         monitor::c19crash::child_main(&args[1..]);
     }
@@ -69,7 +70,10 @@ fn main() {
         .ok()
         .and_then(|s| s.parse().ok())
         .unwrap_or_else(|| std::thread::available_parallelism().map_or(4, |n| n.get()));
-    self_test();
+    // the sanitizer legs skip the start-up validation of the oracles (the ordinary build has just done it)
+    if std::env::var_os("VERIF_NO_SELFTEST").is_none() {
+        self_test();
+    }
     let ctx = RunCtx { tier, seed, workers, started: std::time::Instant::now() };
     let code = monitor::run(id, &ctx);
     std::process::exit(code);
